@@ -1,7 +1,15 @@
-//! E1 as a library: the virtual-transport simulator (used by the vsim binary and by netsim's C11 check), and the C08 sweep (which netsim's C08 runs before its own listener-level segmentations).
+//! E1 as a library: the virtual-transport simulator and the sweeps of every check it decides. netsim hosts them
+//! (it runs a sweep first and adds whole connections through the real Listener and the assembled application to
+//! the same report); the vsim binary runs a sweep on its own.
 pub mod alloc;
 pub mod c01;
 pub mod c02;
+pub mod c03;
+pub mod c04;
+pub mod c05;
+pub mod c06;
+pub mod c07;
 pub mod c08;
+pub mod c10;
 pub mod sim;
 pub mod util;
